@@ -4,7 +4,7 @@
     quasi-definite matrix), and the centering parameter stays in [0,1].  The convergence
     rate itself is measured by the check, not proved (see DESIGN.md, C06). *)
 From Coq Require Import Reals Lra.
-Require Import Clarabel.Newton.Model Clarabel.Newton.Spec Clarabel.Newton.Lemmas Clarabel.Newton.Init.
+Require Import Clarabel.Newton.Model Clarabel.Newton.Spec Clarabel.Newton.Lemmas Clarabel.Newton.Init Clarabel.Newton.Step.
 
 Theorem C06_newton_equations : stmt_newton_equations.
 Proof. exact newton_equations_ok. Qed.
@@ -24,6 +24,22 @@ Proof. exact init_qp_ok. Qed.
 Theorem C06_init_point_lp :
   forall (n m : nat) (P A H : mat) (q b : vec), stmt_init_lp n m P A H q b.
 Proof. exact init_lp_ok. Qed.
+
+(** one predictor-corrector iteration: with the combined right-hand sides of variables.rs and
+    the residuals of residuals.rs, a step of length alpha multiplies the primal and dual
+    residuals by  1 - alpha (1 - sigma) , in every dimension (given exact KKT solves) *)
+Theorem C06_residual_reduction :
+  forall (n m : nat) (P A : mat) (q b : vec), stmt_residual_reduction n m P A q b.
+Proof. exact residual_reduction_ok. Qed.
+Theorem C06_full_affine_step_is_feasible :
+  forall (n m : nat) (P A : mat) (q b : vec) (x s z dx ds dz : vec) (tau dtau : R),
+    (forall j, (j < n)%nat ->
+       mv n P dx j + mv m (transp A) dz j + dtau * q j = comb_rhs_x 0 (res_x n m P A q x z tau) j) ->
+    (forall i, (i < m)%nat ->
+       mv n A dx i + ds i - dtau * b i = - comb_rhs_x 0 (res_z n A b x s tau) i) ->
+    (forall j, (j < n)%nat -> res_x n m P A q (step_v x dx 1) (step_v z dz 1) (tau + 1 * dtau) j = 0) /\
+    (forall i, (i < m)%nat -> res_z n A b (step_v x dx 1) (step_v s ds 1) (tau + 1 * dtau) i = 0).
+Proof. exact full_affine_step_is_feasible. Qed.
 
 (** non-vacuity: a 1x1 instance meeting every hypothesis of [C06_newton_equations]
     (P = 2, A = 1, H = 1, q = 1, b = 1; iterate x = 1, tau = 1, kappa = 1) *)
